@@ -16,9 +16,17 @@ OkPerm(e) ==
         /\ EqV(Slot(e.out512, 0), e.seq) /\ EqV(Slot(e.out512, 1), e.seqb)
         /\ EqV(SubSeq(e.h512, 1, 4), First4(e.seq)) /\ EqV(SubSeq(e.h512, 5, 8), First4(e.seqb)))
   /\ (e.full => EqV(e.seq, Perm(e.in)) /\ (Has(e, "seqb") => EqV(e.seqb, Perm(e.inb))))
+(* one entry point iterated on its own result (no other call of it in between): every step equals the reference chain
+   (scalar, out of place), and the first two steps of the reference chain are re-derived from the specification *)
+Step(v, i) == SubSeq(v, 12 * (i - 1) + 1, 12 * i)
+OkIter(e) ==
+  /\ Len(e.in) = 12 /\ Len(e.outs) = 12 * e.k /\ Len(e.ref) = 12 * e.k
+  /\ \A i \in 1..e.k : EqV(Step(e.outs, i), Step(e.ref, i))
+  /\ EqV(Step(e.ref, 1), Perm(e.in))
+  /\ (e.k >= 2 => EqV(Step(e.ref, 2), Perm(Step(e.ref, 1))))
 (* facts about the constant tables of the tree, judged as a record of their own (first line of the trace) *)
 OkTables(e) == FlatOk /\ MSmall /\ CCanon
-Ok(e) == IF e.e = "perm" THEN OkPerm(e) ELSE IF e.e = "tables" THEN OkTables(e) ELSE FALSE
+Ok(e) == IF e.e = "perm" THEN OkPerm(e) ELSE IF e.e = "tables" THEN OkTables(e) ELSE IF e.e = "iter" THEN OkIter(e) ELSE FALSE
 Init == l = 1
 Next == l <= Len(Tr) /\ Ok(Tr[l]) /\ l' = l + 1
 Accepted == TLCGet("stats").diameter - 1 = Len(Tr)
